@@ -57,7 +57,7 @@ func runC30paths(steps []pathStep, kind string, idx int) Case {
 		}
 	}()
 	var coq, txt []string
-	caWrites, certWrites, starts := 0, 0, 0
+	caWrites, certWrites, starts, lastLeaf := 0, 0, 0, 0
 	for _, st := range steps {
 		switch st.kind {
 		case 0:
@@ -74,7 +74,13 @@ func runC30paths(steps []pathStep, kind string, idx int) Case {
 			certWrites++
 			if certWrites > 1 {
 				tags["server_cert_replaced"]++
+				if leafKeyGroup(lastLeaf) == leafKeyGroup(st.arg) && lastLeaf != st.arg {
+					tags["server_cert_same_key_renewal"]++
+				} else if lastLeaf != st.arg {
+					tags["server_cert_new_key_same_subject"]++
+				}
 			}
+			lastLeaf = st.arg
 			coq = append(coq, fmt.Sprintf("PWriteCert %d", st.arg))
 			txt = append(txt, fmt.Sprintf("server.crt/key:=leaf%d", st.arg))
 		case 2:
@@ -164,7 +170,7 @@ func runC30paths(steps []pathStep, kind string, idx int) Case {
 func genC30paths(r *Rand, idx int, tier string) Case {
 	var steps []pathStep
 	var live [2]bool
-	curCA, curLeaf := 1+r.Intn(3), 1+r.Intn(6)
+	curCA, curLeaf := 1+r.Intn(3), 1+r.Intn(8)
 	steps = append(steps, pathStep{kind: 0, arg: curCA}, pathStep{kind: 1, arg: curLeaf})
 	kind := "ca-rotation"
 	wCA, wCert := 35, 15
@@ -191,7 +197,11 @@ func genC30paths(r *Rand, idx int, tier string) Case {
 				probeLive() // running listeners keep the CA they were built with
 			}
 		case x < wCA+wCert:
-			curLeaf = 1 + (curLeaf+r.Intn(4))%6
+			if r.Chance(50) { // a renewal for the same private key (new serial), else any other leaf
+				curLeaf = map[int]int{1: 2, 2: 7, 7: 1, 3: 4, 4: 8, 8: 3, 5: 1, 6: 3}[curLeaf]
+			} else {
+				curLeaf = 1 + (curLeaf+r.Intn(6))%8
+			}
 			steps = append(steps, pathStep{kind: 1, arg: curLeaf})
 			if r.Chance(50) {
 				probeLive() // without the rotation step the old leaf stays
@@ -240,5 +250,8 @@ func corpusC30paths() []Case {
 			"server-cert-replaced-with-and-without-reload", 3),
 		// missing files on a reused path
 		runC30paths([]pathStep{c(1), start(0, 4), start(1, 2), probe(1), w(2), start(0, 4), probe(0)}, "ca-file-appears-later", 4),
+		// seeded C30-4: the certificate is renewed for the same private key (leaf 1 -> 2 -> 7), with the documented step
+		runC30paths([]pathStep{w(1), c(1), start(0, 0), start(1, 4), c(2), probe(0), reload(0), probe(0), probe(1), c(7), reload(1), reload(0), probe(0), probe(1)},
+			"same-key-renewal-with-and-without-reload", 5),
 	}
 }
